@@ -20,7 +20,7 @@ RULE = ("all multisets of rows (x, group, label) with one discrete feature of k 
         "non-trivial = some constraint is active at the unconstrained optimum; distinct = distinct (dataset)")
 ASSUMPTIONS = ["scipy HiGHS is used only as reference optimum for each enumerated instance (tolerance 1e-7)",
                "hypothesis class = all 2^k functions of the discrete feature, so the exact learner really is exact and constants are in the class"]
-CLASSES = ["lp_step_off", "max_iter_1", "early_stop", "ratio_bound", "three_groups", "constraint_active", "mixture_of_several"]
+CLASSES = ["support_not_a_sorted_prefix", "lp_step_off", "max_iter_1", "early_stop", "ratio_bound", "three_groups", "constraint_active", "mixture_of_several"]
 
 
 def bounds(tier, seed):
@@ -41,7 +41,17 @@ def _datasets(k, G, ns):
             yield [list(r) for r in rows]
 
 
+def _unsorted_cases(tier, seed):
+    """EG runs (k=3 feature values, 3 groups, n=5, LP step off) whose best iterate is an EG average with an out-of-order support."""
+    import json
+    import os
+    p = os.path.join(os.path.dirname(os.path.abspath(__file__)), "c10_unsorted_cases.json")
+    for spec in json.load(open(p))[: (12 if tier == "quick" else 24)]:
+        yield {"rows": spec["rows"], "tier": tier, "seed": seed, "set": "unsorted", "spec": [spec["moment"], spec["bound"], spec["eps"]]}
+
+
 def cases(tier, seed):
+    yield from _unsorted_cases(tier, seed)
     if tier == "quick":
         for rows in _datasets(2, 2, (3,)):
             yield {"rows": rows, "tier": tier, "seed": seed, "set": "full"}
@@ -99,8 +109,11 @@ def run_case(case):
     if len(set(a)) == 3:
         out["classes"].add("three_groups")
     outcome = []
-    for name in PARITY:
-        for spec in BSPECS:
+    plan = [(name, spec) for name in PARITY for spec in BSPECS]
+    if case["set"] == "unsorted":
+        plan = [(case["spec"][0], ("diff", case["spec"][1], None))]
+    for name, spec in plan:
+        if True:
             _, ratio, slack = make_bound(getattr(red, name), spec)
             keys = sorted(ref_gamma(name, ratio, y, a, None, HP[0]))
             Gm = np.array([[ref_gamma(name, ratio, y, a, None, hp)[k] for k in keys] for hp in HP]).T  # k x |H|
@@ -113,11 +126,13 @@ def run_case(case):
                 out["nontrivial"] = True
             if spec[0] == "ratio":
                 out["classes"].add("ratio_bound")
-            if tier == "quick":  # quick: all deviations only for DemographicParity / difference 0.1, base configuration elsewhere
-                kind = case["set"] if (name == "DemographicParity" and spec == BSPECS[1]) else "base"
+            if case["set"] == "unsorted":
+                cfgs = [dict(eps=case["spec"][2], max_iter=12, run_linprog_step=False, eta0=2.0, nu=None)]
+            elif tier == "quick":  # quick: all deviations only for DemographicParity / difference 0.1, base configuration elsewhere
+                cfgs = _configs(tier, case["set"] if (name == "DemographicParity" and spec == BSPECS[1]) else "base")
             else:
-                kind = case["set"]
-            for cfg in _configs(tier, kind):
+                cfgs = _configs(tier, case["set"])
+            for cfg in cfgs:
                 out["evals"] += 1
                 cons, _, _ = make_bound(getattr(red, name), spec)
                 ctx = "%s%r cfg=%r rows=%r" % (name, spec, cfg, rows)
@@ -141,6 +156,9 @@ def run_case(case):
                     continue
                 if (w > 1e-9).sum() > 1:
                     out["classes"].add("mixture_of_several")
+                sup = [i for i in w.index if w[i] > 0]
+                if sup != sorted(sup) or sup != list(range(len(sup))):
+                    out["classes"].add("support_not_a_sorted_prefix")
                 preds = {i: [float(v) for v in np.asarray(eg.predictors_[i].predict(X)).ravel()] for i in w.index}
                 errQ = sum(float(w[i]) * err_rate(y, preds[i]) for i in w.index)
                 gQ = sum(float(w[i]) * np.array([ref_gamma(name, ratio, y, a, None, preds[i])[k] for k in keys]) for i in w.index)
